@@ -225,7 +225,7 @@ def _refresh_c08_params():
     """coq/Conc/TlsPump.v (shared with C08) reads Gen/ParamsC08.v: keep it in step with the tree under test."""
     import c08
     from common import coqrun
-    text = "(* REGENERATED from /repo on every run by harness/c08.py -- do not edit *)\n" + c08.params()
+    text = "(* REGENERATED from /repo on every run by harness/c08.py -- do not edit *)\n" + c08.params_text()
     path = os.path.join(coqrun.COQ, "Gen", "ParamsC08.v")
     with coqrun.build_lock():
         old = open(path).read() if os.path.exists(path) else None
@@ -236,6 +236,10 @@ def _refresh_c08_params():
 
 def params():
     _refresh_c08_params()
+    return params_text()
+
+
+def params_text():
     tls = _parse(_TLS)
     sock = _parse(_SOCK)
     utils = _parse("src/easynetwork/lowlevel/_utils.py")
